@@ -95,7 +95,7 @@ Init ==
   /\ flags = {} /\ error = FALSE /\ wbuf = <<>> /\ budget \in Budgets /\ b0 = budget /\ out = <<>> /\ result = "run"
   /\ woken = TRUE /\ reg = {} /\ pc = "idle" /\ hist = <<>> /\ fedUnits = 0 /\ nresp = 0
   /\ rs = RefInit([gt |-> GtOf(reqs), pf |-> PfOf(progs), cfg |-> Cfg, rej |-> RejOf(reqs), epi |-> FALSE,
-                   sock |-> [shutdown |-> "ready"], total |-> Len(AllUnits(reqs))])
+                   sock |-> [shutdown |-> "ready", budget |-> -1], total |-> Len(AllUnits(reqs))])
 
 (* ------------------------------- environment ------------------------------- *)
 ClientSend ==
